@@ -24,7 +24,7 @@ structure Ent where
   dg : Bytes          -- SHA-512 of the MODEL's hash input
   deriving Inhabited
 
-def metaKeys : List String := ["calc", "ved", "vred", "vrml", "bin", "jp"]
+def metaKeys : List String := ["calc", "ved", "vred", "vrml", "bin", "jp", "jts", "tz"]
 
 /-- Split `name=hex` tokens into record fields and meta values. -/
 def parseKVs (toks : List String) : Option (Rec × List (String × String)) := do
@@ -90,9 +90,37 @@ def lastComponent (f : String) : String := (f.splitOn ".").getLast!
 request, outcome (= all LogDetails fields) and timestamp, version. -/
 def listedField (f : String) : Bool := recordedLog.contains f || f == "Version" || f == "Timestamp"
 
+def pad (w : Nat) (n : Nat) : String :=
+  let d := toString n
+  String.ofList (List.replicate (w - d.length) '0') ++ d
+
+/-- Go's `t.UTC().Format("2006-01-02T15:04:05.999999999Z")` for an instant given as nanoseconds since the
+epoch (non-negative): civil date from days (Hinnant), fraction with trailing zeros trimmed. -/
+def fmtInstantUTC (ns : Nat) : String :=
+  let secs := ns / 1000000000
+  let frac := ns % 1000000000
+  let days := secs / 86400
+  let sod := secs % 86400
+  let z := days + 719468
+  let era := z / 146097
+  let doe := z % 146097
+  let yoe := (doe + doe / 36524 - doe / 1460 - doe / 146096) / 365
+  let doy := doe - (365 * yoe + yoe / 4 - yoe / 100)
+  let mp := (5 * doy + 2) / 153
+  let d := doy - (153 * mp + 2) / 5 + 1
+  let m := if mp < 10 then mp + 3 else mp - 9
+  let y := yoe + era * 400 + (if m ≤ 2 then 1 else 0)
+  let fs := if frac == 0 then "" else
+    "." ++ String.ofList ((pad 9 frac).toList.reverse.dropWhile (· == '0')).reverse
+  s!"{pad 4 y}-{pad 2 m}-{pad 2 d}T{pad 2 (sod / 3600)}:{pad 2 (sod % 3600 / 60)}:{pad 2 (sod % 60)}{fs}Z"
+
 def idLeaf : Leaf := { enc := fun _ b => b, dec := fun _ b => b }
 
 def sortStrings (l : List String) : List String := (l.toArray.qsort (· < ·)).toList
+
+/-- Fields the JSON serializer writes as JSON strings (codec "str"). -/
+def strFields : List String :=
+  ((Gen.AuditLog.jsonEntryW ++ Gen.AuditLog.jsonLogW).filter fun x => x.2.2.2 == "str").map (·.1)
 
 /-- Signature + message for a serializer round-trip failure `i:fields`. -/
 def rtViolation (ser : String) (rt : String) (recAt : Nat → Rec) : String × String :=
@@ -100,7 +128,8 @@ def rtViolation (ser : String) (rt : String) (recAt : Nat → Rec) : String × S
   | [i, fs] =>
     let fields := fs.splitOn ","
     let r := recAt i.toNat!
-    let bad := fields.any fun f => !validUtf8 (get r f)
+    -- only string-typed fields can be "not valid UTF-8" (hashes, signatures and integers are raw bytes)
+    let bad := fields.any fun f => strFields.contains f && !validUtf8 (get r f)
     if bad then (s!"C27.roundtrip.{ser}.invalid-utf8", s!"entry{i}:{fs}:decoded-differs-from-encoded")
     else (s!"C27.roundtrip.{ser}.field-{lastComponent (fields.headD "?")}", s!"entry{i}:{fs}:decoded-differs-from-encoded")
   | _ => (s!"C27.roundtrip.{ser}.other", rt)
@@ -122,6 +151,7 @@ structure St where
   fp : List String := []
   avoidKnown : Bool := false    -- per-finding avoid switch: do not judge the known unhashed copy-source fields
   nKnownSkipped : Nat := 0
+  nNonUTC : Nat := 0
   skipSer : List String := []   -- serializers whose base round trip is already broken (reported once)
 
 def St.addDiv (s : St) (m : String) : St := if s.div.length < 20 then { s with div := s.div ++ [m] } else s
@@ -208,6 +238,13 @@ def handleE (s : St) (toks : List String) : St := Id.run do
         let paths := sortStrings ((jsonWrite idLeaf (jsonW (version r) (kind hashT r)) r).map (·.1))
         if String.intercalate "," paths != jp then
           s := s.addDiv s!"entry{idx}:json-paths:model={String.intercalate "," paths},impl={jp}"
+      -- the JSON timestamp string must denote the entry's instant (the model: UTC reading, literal Z)
+      let jts := lookupS mt "jts"
+      if jts != "skip" && jts != "" then
+        let ts := beNat (get r "Timestamp")
+        if ts < 9223372036854775808 && unhexStr jts != some (fmtInstantUTC ts) then
+          s := s.addDiv s!"entry{idx}:json-timestamp:model={fmtInstantUTC ts},impl={(unhexStr jts).getD "?"},zone-offset={lookupS mt "tz"}s"
+      if lookupS mt "tz" != "0" && lookupS mt "tz" != "" then s := { s with nNonUTC := s.nNonUTC + 1 }
       let d := s!"{bytesToString (get r "Type")}/{bytesToString (get r "Log.Operation")}/{bytesToString (get r "Log.Phase")}/{bytesToString (get r "Log.Outcome.Outcome")}"
       return { s with ents := s.ents.push e, ed := ed, ml := ml, fp := s.fp ++ [d] }
   | _ => return s.addDiv "unparsable-entry-line"
@@ -319,6 +356,7 @@ def judgeCase (k : Nat) (lines : List String) : Verdict := Id.run do
     | "e" :: rest => s := handleE s rest
     | "base" :: rest => s := handleBase s rest
     | "m" :: rest => s := handleM s rest
+    | "zone" :: _ => pure ()
     | "panic" :: _ => s := s.addDiv "harness-panic"
     | _ => s := s.addDiv "unknown-line"
   let nm := s.nChg + s.nStruct
@@ -329,7 +367,8 @@ def judgeCase (k : Nat) (lines : List String) : Verdict := Id.run do
     stats := [("entries", s.ents.size), ("mutations_field", s.nChg), ("mutations_structural", s.nStruct),
       ("rejected_as_demanded", s.nRejected), ("accepted_exempt_or_unlisted", s.nAcceptedExempt),
       ("serializer_errors_skipped", s.nSerSkip),
-      ("known_copy_source_mutations_not_judged", s.nKnownSkipped)],
+      ("known_copy_source_mutations_not_judged", s.nKnownSkipped),
+      ("entries_stamped_in_a_non_utc_zone", s.nNonUTC)],
     samples := [String.intercalate ";" (s.fp.take 12)]
   }
 
